@@ -78,7 +78,9 @@ def main():
         return recheck_all(sys.argv[2:])
     prop = sys.argv[1]
     which = [int(x) for x in sys.argv[2:]] or [1, 2, 3]
-    base = "/tmp/seed/%s" % prop
+    base = "%s/%s" % (os.environ.get("SEED_BASE", "/tmp/seed"), prop)
+    offset = int(os.environ.get("SEED_OFFSET", "0"))
+    origin = os.environ.get("SEED_ORIGIN", "independent sub-agent given only the property text and a scratch worktree")
     wt = os.path.join(base, "wt")
     out = os.path.join(base, "out")
     env = dict(os.environ, PYTHONPATH=os.path.join(wt, "src"))
@@ -107,7 +109,7 @@ def main():
         vline = [l for l in chk.stdout.splitlines() if l.startswith("violation in run")]
         mini = [l for l in chk.stdout.splitlines() if l.startswith("minimised")]
         sh(["git", "-C", wt, "checkout", "--", "."])
-        d = os.path.join(HERE, "seeded", "%s-%d" % (prop, i))
+        d = os.path.join(HERE, "seeded", "%s-%d" % (prop, i + offset))
         os.makedirs(d, exist_ok=True)
         shutil.copy(diff, os.path.join(d, "patch.diff"))
         shutil.copy(demo, os.path.join(d, "demo.py"))
@@ -115,7 +117,7 @@ def main():
         needs = open(md).read() if os.path.exists(md) else ""
         meta = {
             "property": prop,
-            "origin": "independent sub-agent given only the property text and a scratch worktree",
+            "origin": origin,
             "needs_to_manifest": needs,
             "confirmed": {
                 "repo_tests_pass_with_change": tests.returncode == 0,
@@ -133,7 +135,7 @@ def main():
         with open(os.path.join(d, "meta.json"), "w") as f:
             json.dump(meta, f, indent=1)
         print("%s-%d confirmed=%s detected=%s rc=%d %.0fs %s" %
-              (prop, i, confirmed, detected, chk.returncode, dt, (vline[0][:170] if vline else chk.stdout.strip()[-200:])))
+              (prop, i + offset, confirmed, detected, chk.returncode, dt, (vline[0][:170] if vline else chk.stdout.strip()[-200:])))
         sys.stdout.flush()
 
 
